@@ -81,6 +81,53 @@ pub fn lex_term_fold_parse(f: Fmt, s: &str) -> Out {
     }
 }
 
+/// Copies of the shipped enum format of `g` whose vocabulary is *permuted within itself*: the tense
+/// markers rotated (past -> present -> future), the copulas / connecters / atom prefixes /
+/// punctuations rotated by one, the two set bracket pairs swapped.  A user may define such a format
+/// (the field comments suggest it); a memo or cache inside the library that is keyed by a keyword
+/// string alone - not by the format - then holds entries that are wrong for the shipped format.
+pub fn permuted_formats(g: Fmt) -> Vec<EnumFormat<&'static str>> {
+    let base: EnumFormat<&'static str> = match g {
+        Fmt::Ascii => narsese::conversion::string::impl_enum::format_instances::FORMAT_ASCII,
+        Fmt::Latex => narsese::conversion::string::impl_enum::format_instances::FORMAT_LATEX,
+        Fmt::Han => narsese::conversion::string::impl_enum::format_instances::FORMAT_HAN,
+    };
+    let mut out = vec![];
+    {
+        let mut v = base.clone();
+        let s = &mut v.sentence;
+        (s.stamp_past, s.stamp_present, s.stamp_future) = (s.stamp_present, s.stamp_future, s.stamp_past);
+        out.push(v);
+    }
+    {
+        let mut v = base.clone();
+        let s = &mut v.sentence;
+        (s.punctuation_judgement, s.punctuation_goal, s.punctuation_question, s.punctuation_quest) = (s.punctuation_goal, s.punctuation_question, s.punctuation_quest, s.punctuation_judgement);
+        out.push(v);
+    }
+    {
+        let mut v = base.clone();
+        let a = &mut v.atom;
+        (a.prefix_variable_independent, a.prefix_variable_dependent, a.prefix_variable_query, a.prefix_operator) = (a.prefix_variable_dependent, a.prefix_variable_query, a.prefix_operator, a.prefix_variable_independent);
+        out.push(v);
+    }
+    {
+        let mut v = base.clone();
+        let c = &mut v.compound;
+        (c.brackets_set_extension, c.brackets_set_intension) = (c.brackets_set_intension, c.brackets_set_extension);
+        (c.connecter_conjunction, c.connecter_disjunction, c.connecter_product, c.connecter_conjunction_parallel) = (c.connecter_disjunction, c.connecter_product, c.connecter_conjunction_parallel, c.connecter_conjunction);
+        out.push(v);
+    }
+    {
+        let mut v = base.clone();
+        let t = &mut v.statement;
+        (t.copula_inheritance, t.copula_similarity, t.copula_implication, t.copula_equivalence) = (t.copula_similarity, t.copula_implication, t.copula_equivalence, t.copula_inheritance);
+        (t.copula_implication_predictive, t.copula_implication_concurrent, t.copula_implication_retrospective) = (t.copula_implication_concurrent, t.copula_implication_retrospective, t.copula_implication_predictive);
+        out.push(v);
+    }
+    out
+}
+
 /// A little work in format `g` through every parser and formatter, meant to be the *first* thing a
 /// thread does: whatever the library initialises lazily per thread or per process is then
 /// initialised from format `g` rather than from the format under test.
@@ -97,6 +144,15 @@ pub fn prelude(g: Fmt) {
         if let Ok(lx) = g.l().parse(&s) {
             let _ = g.l().format_narsese(&lx);
             let _: Result<Narsese, _> = lx.try_fold_into(g.e());
+        }
+        // ... and the same value through the permuted-vocabulary variants of `g` (formatted, parsed, and the
+        // shipped lexical value folded with the variant as folder)
+        for pf in permuted_formats(g) {
+            let s2 = pf.format_narsese(&v);
+            let _ = pf.parse::<Narsese>(&s2);
+            if let Ok(lx) = g.l().parse(&s) {
+                let _: Result<Narsese, _> = lx.try_fold_into(&pf);
+            }
         }
         let mut h = std::collections::hash_map::DefaultHasher::new();
         if let Narsese::Task(t) = &v {
